@@ -5,6 +5,7 @@ import Mathlib.Analysis.Real.Sqrt
 import Mathlib.Analysis.SpecialFunctions.Log.Basic
 import Mathlib.Tactic.FinCases
 import Mathlib.Tactic.NormNum
+import Mathlib.Logic.Relation
 
 /-!
 # C12 — the reversible estimator is a true maximum-likelihood fixed point
@@ -182,6 +183,46 @@ theorem returns_partial {P : Params K} (hs : SqrtSpec P.sqrt) (hP : ParamsOK P) 
 
 end field
 
+/-! ### the hypothesis `Conn` follows from the property's quantifier -/
+
+/-- the transition graph of a count matrix -/
+def edge {K : Type} [Zero K] [LT K] {n : Nat} (C : Mat K n) (i j : Fin n) : Prop := 0 < mget C i j
+
+/-- strongly connected: every state reaches every state along positive counts -/
+def StronglyConnected {K : Type} [Zero K] [LT K] {n : Nat} (C : Mat K n) : Prop :=
+  ∀ i j, Relation.TransGen (edge C) i j
+
+/-- A strongly connected count matrix with at least two states satisfies `Conn`: every state
+has an outgoing and an incoming off-diagonal count. -/
+theorem conn_of_strongly_connected {K : Type} [Field K] [LinearOrder K] [IsStrictOrderedRing K]
+    {n : Nat} (C : Mat K n) (hsc : StronglyConnected C) (h2 : ∀ i : Fin n, ∃ j, j ≠ i) :
+    Conn C := by
+  constructor
+  · intro i
+    obtain ⟨j, hj⟩ := h2 i
+    have key : ∀ a, Relation.TransGen (edge C) a j → j ≠ a → ∃ k, k ≠ a ∧ 0 < mget C a k := by
+      intro a h
+      induction h using Relation.TransGen.head_induction_on with
+      | single hab => intro hne; exact ⟨j, hne, hab⟩
+      | @head a c hac _ ih =>
+        intro hne
+        by_cases hca : c = a
+        · subst hca; exact ih hne
+        · exact ⟨c, hca, hac⟩
+    exact key i (hsc i j) hj
+  · intro i
+    obtain ⟨j, hj⟩ := h2 i
+    have key : ∀ b, Relation.TransGen (edge C) j b → j ≠ b → ∃ k, k ≠ b ∧ 0 < mget C k b := by
+      intro b h
+      induction h with
+      | single hjb => intro hne; exact ⟨j, hne, hjb⟩
+      | @tail b c _ hbc ih =>
+        intro hne
+        by_cases hbc' : b = c
+        · subst hbc'; exact ih hne
+        · exact ⟨b, hbc', hbc⟩
+    exact key i (hsc j i) hj
+
 /-- `Real.sqrt` satisfies the specification the theorems assume (non-vacuity) -/
 theorem real_sqrt_spec : SqrtSpec Real.sqrt :=
   ⟨fun _ hx => Real.mul_self_sqrt hx, fun x _ => Real.sqrt_nonneg x⟩
@@ -203,6 +244,20 @@ theorem ones2_conn : Conn ones2 := by
     fin_cases i
     · exact ⟨1, by decide, by simp [ones2, mget_ofFn]⟩
     · exact ⟨0, by decide, by simp [ones2, mget_ofFn]⟩
+
+-- the hypotheses of the theorems above are satisfiable: `init` succeeds on `ones2` over ℝ with
+-- `Real.sqrt`, and its state satisfies the invariant
+example : ∃ Crs st0, init ones2 = .ok (Crs, st0) ∧ Data ones2 Crs ∧ Inv st0 ∧ Pos ones2 st0 := by
+  obtain ⟨Crs, st0, h⟩ := conn_init ones2_nonneg ones2_conn
+  obtain ⟨hD, hI, _, _⟩ := init_inv ones2_nonneg h
+  exact ⟨Crs, st0, h, hD, hI, init_pos h⟩
+
+example (k : Nat) : ∃ Crs st0 st, init ones2 = .ok (Crs, st0) ∧
+    sweepsN Real.sqrt Real.log ones2 Crs k st0 = .ok st ∧ ∀ i, 0 < vget st.rs i := by
+  obtain ⟨Crs, st0, h⟩ := conn_init ones2_nonneg ones2_conn
+  obtain ⟨st, h1, h2, _⟩ := rowsums_stay_positive (log := Real.log) real_sqrt_spec ones2_nonneg
+    ones2_conn h k
+  exact ⟨Crs, st0, st, h, h1, h2⟩
 
 /-- With the call site as generated from the source (`warnSwappedPy = true` on the unchanged
 tree) the full statement fails: `max_iter = 1` on the all-ones 2×2 matrix uses the last
